@@ -161,7 +161,7 @@ def gillespie_stats(rep, tier, seed):
     runs = []
     for di, desc in enumerate(STAT_MODELS):
         m = mk(desc)
-        tr, ts, traj = rd_rec.record_run(lib, m, "gillespie", seed * 17 + di, nev)
+        tr, ts, traj = rd_rec.record_run(lib, m, "gillespie", seed * 17 + di, nev, cap=None)
         runs.append((desc, m, tr, ts))
     # distinct visited states -> exact rates from the specification
     items = []
@@ -309,7 +309,7 @@ def tauleap_stats(rep, tier, seed):
         m = mk(desc)
         runs = []
         for rp in range(nrep):
-            tr, ts, traj = rd_rec.record_run(lib, m, "tauleap", seed * 31 + di * 100 + rp, 60, dt=dt)
+            tr, ts, traj = rd_rec.record_run(lib, m, "tauleap", seed * 31 + di * 100 + rp, 60, dt=dt, cap=None)
             runs.append(tr)
         seen = {}
         for tr in runs:
